@@ -308,6 +308,103 @@ var deviations = []deviation{
 		a.H.SetTimeout(20 * time.Second)
 		return true
 	}},
+	{name: "hub/three-participant-virtual-channel-funded-and-settled-by-two-colluding-parties", run: func(rng *rand.Rand, a *arena) bool {
+		// M and H (both with valid keys and a ledger channel with the hub V) fund a virtual channel
+		// with THREE participants through the hub - two matching, correctly signed funding
+		// proposals the hub's validation accepts - and then settle it.
+		n := len(a.w.Assets)
+		x := gen.Account(rng)
+		xAddr := gen.AddrMap(x.Address())
+		params, err := channel.NewParams(10, []map[wallet.BackendID]wallet.Address{a.M.WAddr, a.H.WAddr, xAddr}, channel.NoApp(), gen.Nonce(rng), false, true, channel.Aux{})
+		if err != nil {
+			return false
+		}
+		mkState := func(ver uint64, final bool) *channel.State {
+			st := &channel.State{ID: params.ID(), Version: ver, App: channel.NoApp(), Data: channel.NoData(), IsFinal: final}
+			st.Assets = append([]channel.Asset(nil), a.w.Assets...)
+			st.Backends = backends(n)
+			st.Balances = make(channel.Balances, n)
+			for i := range st.Balances {
+				st.Balances[i] = []channel.Bal{big.NewInt(0), big.NewInt(2), big.NewInt(3)}
+			}
+			return st
+		}
+		signAll := func(st *channel.State) ([]wallet.Sig, bool) {
+			s0, e0 := channel.Sign(a.M.Acc, st, gen.B)
+			s1, e1 := channel.Sign(a.H.Acc, st, gen.B)
+			s2, e2 := channel.Sign(x, st, gen.B)
+			return []wallet.Sig{s0, s1, s2}, e0 == nil && e1 == nil && e2 == nil
+		}
+		// per parent: (channel at V, the peer's account, index map, what the two parent participants put up)
+		type side struct {
+			chV  *client.Channel
+			peer *party.Party
+			im   []channel.Index
+			put  [2]int64
+		}
+		sides := []side{{a.chV, a.M, []channel.Index{0, 1, 0}, [2]int64{3, 2}}, {a.ctlV, a.H, []channel.Index{1, 0, 1}, [2]int64{2, 3}}}
+		upd := func(sd side, st *channel.State) (client.ChannelUpdateMsg, bool) {
+			sig, err := channel.Sign(sd.peer.Acc, st, gen.B)
+			return client.ChannelUpdateMsg{ChannelUpdate: client.ChannelUpdate{State: st, ActorIdx: 0}, Sig: sig}, err == nil
+		}
+		ini := mkState(0, false)
+		iniSigs, ok := signAll(ini)
+		if !ok {
+			return false
+		}
+		tot := ini.Allocation.Sum()
+		for _, sd := range sides {
+			st := succ(sd.chV.State())
+			for ai := range st.Balances {
+				for p := 0; p < 2; p++ {
+					st.Balances[ai][p] = new(big.Int).Sub(st.Balances[ai][p], big.NewInt(sd.put[p]))
+					if st.Balances[ai][p].Sign() < 0 {
+						return false
+					}
+				}
+			}
+			st.Locked = append(st.Locked, channel.SubAlloc{ID: ini.ID, Bals: tot, IndexMap: sd.im})
+			u, ok := upd(sd, st)
+			if !ok {
+				return false
+			}
+			a.w.Bus.Inject(&wire.Envelope{Sender: sd.peer.Wire, Recipient: a.V.Wire, Msg: &client.VirtualChannelFundingProposalMsg{ChannelUpdateMsg: u, Initial: channel.SignedState{Params: params, State: ini, Sigs: iniSigs}, IndexMap: sd.im}})
+		}
+		locked := func(ch *client.Channel) bool {
+			_, ok := ch.State().SubAlloc(ini.ID)
+			return ok
+		}
+		if !waitUntil(8*time.Second, func() bool { return locked(a.chV) && locked(a.ctlV) }) {
+			return false // the hub did not take the funding: nothing to settle
+		}
+		fin := mkState(1, true)
+		finSigs, ok := signAll(fin)
+		if !ok {
+			return false
+		}
+		for _, sd := range sides {
+			cur := sd.chV.State()
+			st := succ(cur)
+			st.Locked = nil
+			for _, l := range cur.Locked {
+				if l.ID != ini.ID {
+					st.Locked = append(st.Locked, l)
+				}
+			}
+			for ai := range st.Balances {
+				for p := 0; p < 2; p++ {
+					st.Balances[ai][p] = new(big.Int).Add(st.Balances[ai][p], big.NewInt(sd.put[p]))
+				}
+			}
+			u, ok := upd(sd, st)
+			if !ok {
+				return false
+			}
+			a.w.Bus.Inject(&wire.Envelope{Sender: sd.peer.Wire, Recipient: a.V.Wire, Msg: &client.VirtualChannelSettlementProposalMsg{ChannelUpdateMsg: u, Final: channel.SignedState{Params: params, State: fin, Sigs: finSigs}}})
+		}
+		waitUntil(12*time.Second, func() bool { return !locked(a.chV) && !locked(a.ctlV) })
+		return true
+	}},
 	{name: "opening/version-0-signature-replaced", run: func(rng *rand.Rand, a *arena) bool {
 		// M answers the version-0 signature exchange of a new channel with something else
 		variant := rng.Intn(5)
